@@ -213,6 +213,16 @@ def step (st : St) (line : String) : St × Option String :=
         (st, some ("schema ok " ++ maskedHex s m ++ " " ++
           String.join (rows.map fun r => toString r.depth ++ "," ++ toString r.off ++ "," ++ toString r.size ++ "," ++ toString r.align ++ ";")))
       | _, _ => (st, some "badval")
+  | ["dtype", _] => (st, some "dtype same *")
+  | ["derive", i, dterm, targs, cargs] =>
+      match i.toNat?.bind (st.types[·]?), pDef dterm.toList with
+      | some t, some (d, []) =>
+        let tas := ((targs.splitOn "|").filter (· ≠ "-")).filterMap parseTy
+        let cas := ((cargs.splitOn "|").filter (· ≠ "-")).filterMap (·.toNat?)
+        let t' := d.derive tas cas
+        (st, some ("derive " ++ (if Ty.beq t t' then "same" else "differs") ++ " replaced=" ++
+          ",".intercalate (d.replacedParams.map toString) ++ " attrs=" ++ toString d.attrsOk))
+      | _, _ => (st, some "derive badterm")
   | ["xdeser", i, j, val] =>
       match i.toNat?.bind (st.types[·]?), j.toNat?.bind (st.types[·]?), parseVal val with
       | some t, some u, some v =>
